@@ -119,6 +119,9 @@ MUTANTS = [
     ('C09', 'readonly-new-oid', BS,
      "    def new_oid(self):\n        if self._is_read_only:\n            raise POSException.ReadOnlyError()",
      "    def new_oid(self):\n        if False:\n            raise POSException.ReadOnlyError()"),
+    ('C05', 'foreign-tpc-abort-aborts-the-one-in-flight', BS,
+     "            if transaction is not self._transaction:\n                return\n\n            try:\n                self._abort()",
+     "            if self._transaction is None:\n                return\n\n            try:\n                self._abort()"),
     ('C06', 'undo-always-copies', FS,
      "                        # the data being undone.  We can't just copy:\n                        copy = False",
      "                        # the data being undone.  We can't just copy:\n                        copy = True"),
